@@ -16,7 +16,7 @@ use passage_packets::login::serverbound as login_sb;
 use passage_packets::status::clientbound as st_cb;
 use passage_packets::status::serverbound as st_sb;
 use passage_packets::{
-    AsyncReadPacket, AsyncWritePacket, ChatMode, DisplayedSkinParts, MainHand, Packet, ParticleStatus, ReadPacket,
+    AsyncReadPacket, AsyncWritePacket, ChatMode, DisplayedSkinParts, MainHand, ParticleStatus, ReadPacket,
     ResourcePackResult, State, WritePacket,
 };
 use proptest::prelude::*;
